@@ -37,6 +37,8 @@ const (
 	AStdout                // fd_write(1, cell A), acc += errno (WASI atoms: not modelled, C11 only)
 	AOpen                  // path_open(3,"f",O_CREAT); acc += errno*1000 + fd
 	AClose                 // fd_close(last opened fd); acc += errno
+	ACallGRef              // table[5] := (immutable funcref global = ref.func gleaf); acc = table[5](acc)
+	AAtomicAdd             // acc += atomic.rmw.add(cell A, B)   (only when Atomics)
 )
 
 const (
@@ -47,7 +49,10 @@ const (
 	TrapNullCall
 	TrapSigMismatch
 	TrapTruncOverflow
-	NumTraps
+	NumTraps              // traps available without the threads feature
+	TrapAtomicOOB8        = NumTraps
+	TrapAtomicCmpxchgOOB8 = NumTraps + 1
+	NumTrapsAtomics       = NumTraps + 2
 )
 
 var TrapMsg = []string{
@@ -58,6 +63,8 @@ var TrapMsg = []string{
 	"wasm error: invalid table access",
 	"wasm error: indirect call type mismatch",
 	"wasm error: integer overflow",
+	"wasm error: out of bounds memory access",
+	"wasm error: out of bounds memory access",
 }
 
 type Atom struct {
@@ -66,7 +73,7 @@ type Atom struct {
 }
 
 func (a Atom) String() string {
-	n := []string{"store", "storeacc", "loadacc", "gadd", "call", "callimp", "calli", "host", "trap", "grow", "rec", "tableset", "exit", "meminit", "datadrop", "tableinit", "elemdrop", "tailcall", "stdout", "open", "close"}[a.K]
+	n := []string{"store", "storeacc", "loadacc", "gadd", "call", "callimp", "calli", "host", "trap", "grow", "rec", "tableset", "exit", "meminit", "datadrop", "tableinit", "elemdrop", "tailcall", "stdout", "open", "close", "callgref", "atomicadd"}[a.K]
 	return fmt.Sprintf("%s(%d,%d)", n, a.A, a.B)
 }
 
@@ -79,6 +86,7 @@ const (
 	NGlobals          = 4
 	TableSize         = 8
 	MaxPages          = 4
+	SlotGRef          = 5 // where the funcref-global atom parks its reference
 	SlotNull          = 6 // always null initially
 	SlotOdd           = 7 // holds a function of another signature
 	PassiveData int32 = 0x5EEDF00D
@@ -112,6 +120,8 @@ type Opts struct {
 	TailCalls          bool
 	HostTags           int
 	WASI               bool // stdout / path_open / fd_close atoms (no model support)
+	GRef               bool // funcref-global atom
+	Atomics            bool // atomic atoms and traps (needs the threads feature)
 }
 
 // Generate draws a plan from the tape.
@@ -130,9 +140,15 @@ func Generate(t *tape.Tape, o Opts) *Plan {
 		for j := 0; j < na; j++ {
 			val++
 			// weights: store, storeacc, loadacc, gadd, call, callimp, calli, host, trap, grow, rec, tableset, exit, meminit, datadrop, tableinit, elemdrop, tailcall
-			w := []int{4, 3, 2, 3, 4, 0, 0, 0, 0, 0, 0, 0, 0, 0, 0, 0, 0, 0, 0, 0, 0}
+			w := []int{4, 3, 2, 3, 4, 0, 0, 0, 0, 0, 0, 0, 0, 0, 0, 0, 0, 0, 0, 0, 0, 0, 0}
 			if o.WASI {
 				w[AStdout], w[AOpen], w[AClose] = 3, 2, 2
+			}
+			if o.GRef {
+				w[ACallGRef] = 2
+			}
+			if o.Atomics {
+				w[AAtomicAdd] = 2
 			}
 			if i == n-1 {
 				w[ACall] = 0
@@ -188,11 +204,18 @@ func Generate(t *tape.Tape, o Opts) *Plan {
 			case AHost:
 				a.A = int32(t.Choose(tags))
 			case ATrap:
-				a.A = int32(t.Choose(NumTraps))
+				if o.Atomics {
+					a.A = int32(t.Choose(NumTrapsAtomics))
+				} else {
+					a.A = int32(t.Choose(NumTraps))
+				}
+			case AAtomicAdd:
+				a.A, a.B = int32(t.Choose(NCells)), int32(1+t.Choose(9))
 			case AGrow:
 				a.A = int32(t.Choose(3))
 			case ARec:
-				a.A = int32(t.Choose(2))
+				// B: 0 unbounded, 1 bounded by acc&15, 2 unbounded for odd acc / bounded for even acc
+				a.A, a.B = int32(t.Choose(2)), int32(t.Choose(3))
 			case ATableSet:
 				s := t.Choose(TableSize - 2)
 				if s+1 >= n {
@@ -230,6 +253,7 @@ type Layout struct {
 	F0                         uint32 // first plan function
 	Rec0                       uint32
 	Odd                        uint32
+	Gleaf                      uint32
 	TypeGuest                  uint32
 }
 
@@ -238,6 +262,7 @@ func (p *Plan) Layout() Layout {
 	l.F0 = 5 + uint32(p.NImports)
 	l.Rec0 = l.F0 + uint32(len(p.Funcs))
 	l.Odd = l.Rec0 + 2
+	l.Gleaf = l.Odd + 1
 	return l
 }
 
@@ -303,11 +328,23 @@ func (p *Plan) Encode() []byte {
 					c.LocalGet(1).I32Const(SlotOdd).CallIndirect(tGuest, 0).LocalSet(1)
 				case TrapTruncOverflow:
 					c.F32Const(1e30).I32TruncF32S().LocalSet(1)
+				case TrapAtomicOOB8:
+					c.I32Const(0x7ffffff0).I32Const(1).Raw(0xFE, 0x20, 0, 0).LocalSet(1)
+				case TrapAtomicCmpxchgOOB8:
+					c.I32Const(0x7ffffff0).I32Const(1).I32Const(2).Raw(0xFE, 0x4A, 0, 0).LocalSet(1)
 				}
 			case AGrow:
 				c.I32Const(a.A).MemoryGrow().Drop()
 			case ARec:
-				c.LocalGet(1).Call(l.Rec0 + uint32(a.A)).LocalSet(1)
+				switch a.B {
+				case 0:
+					c.I32Const(1 << 30)
+				case 1:
+					c.LocalGet(1).I32Const(15).I32And()
+				default:
+					c.LocalGet(1).I32Const(1).I32And().I32Const(30).I32Shl().LocalGet(1).I32Const(7).I32And().I32Or()
+				}
+				c.Call(l.Rec0 + uint32(a.A)).LocalSet(1)
 			case ATableSet:
 				c.I32Const(a.A).RefFunc(l.F0 + uint32(a.B)).TableSet(0)
 			case AExit:
@@ -330,6 +367,11 @@ func (p *Plan) Encode() []byte {
 				c.I32Const(1000).I32Mul().I32Const(0x130).I32Load(0).I32Add().LocalGet(1).I32Add().LocalSet(1)
 			case AClose:
 				c.LocalGet(1).I32Const(0x130).I32Load(0).Call(l.FdClose).I32Add().LocalSet(1)
+			case ACallGRef:
+				c.I32Const(SlotGRef).GlobalGet(NGlobals).TableSet(0)
+				c.LocalGet(1).I32Const(SlotGRef).CallIndirect(tGuest, 0).LocalSet(1)
+			case AAtomicAdd:
+				c.I32Const(8*a.A).I32Const(a.B).Raw(0xFE, 0x1E, 2, 0).LocalGet(1).I32Add().LocalSet(1)
 			}
 			if tail {
 				break
@@ -340,29 +382,36 @@ func (p *Plan) Encode() []byte {
 		}
 		m.AddFunc(i32, i32, []wasmb.ValType{wasmb.I32}, c.B, fmt.Sprintf("f%d", i))
 	}
-	// rec0, rec1: rec(x) = rec(x+1)+1 with live i64 locals
+	// rec0, rec1: rec(n) = n <= 0 ? 0 : rec(n-1)+1, with i64 locals kept live across the call
+	// (a huge n exhausts the stack, a small n returns n)
 	for r := 0; r < 2; r++ {
 		nl := p.RecLocals[r]
 		c := &wasmb.Code{}
 		locals := make([]wasmb.ValType, nl)
+		c.LocalGet(0).I32Const(1).I32LtS().If(wasmb.BlockVoid).I32Const(0).Return().End()
 		for i := range locals {
 			locals[i] = wasmb.I64
 			c.LocalGet(0).I64ExtendI32U().I64Const(int64(i)).I64Add().LocalSet(uint32(1 + i))
 		}
-		c.LocalGet(0).I32Const(1).I32Add().Call(l.Rec0 + uint32(r))
+		c.LocalGet(0).I32Const(1).I32Sub().Call(l.Rec0 + uint32(r))
 		for i := range locals {
-			c.LocalGet(uint32(1 + i)).I32WrapI64().I32Add()
+			// adds zero, but keeps the local live across the call
+			c.LocalGet(uint32(1 + i)).I32WrapI64().LocalGet(0).I32Const(int32(i)).I32Add().I32Xor().I32Add()
 		}
 		c.I32Const(1).I32Add()
 		m.AddFunc(i32, i32, locals, c.B, fmt.Sprintf("rec%d", r))
 	}
 	m.AddFunc(nil, nil, nil, (&wasmb.Code{}).B, "")
+	// gleaf(x): bumps global 3 of ITS OWN instance and returns x+1; reachable only through the
+	// immutable funcref global (index NGlobals)
+	m.AddFunc(i32, i32, nil, (&wasmb.Code{}).GlobalGet(3).I32Const(1).I32Add().GlobalSet(3).LocalGet(0).I32Const(1).I32Add().B, "gleaf")
 	m.Tables = []wasmb.Table{{Elem: wasmb.FuncRef, Lim: wasmb.Limits{Min: TableSize, Max: TableSize, HasMax: true}}}
 	m.Mem = &wasmb.Limits{Min: 1, Max: MaxPages, HasMax: true}
 	for g := 0; g < NGlobals; g++ {
 		m.Globals = append(m.Globals, wasmb.Global{Type: wasmb.I32, Mut: true, Init: wasmb.ConstI32(int32(1000 * (g + 1)))})
 		m.Exports = append(m.Exports, wasmb.Export{Name: fmt.Sprintf("g%d", g), Kind: wasmb.KindGlobal, Idx: uint32(g)})
 	}
+	m.Globals = append(m.Globals, wasmb.Global{Type: wasmb.FuncRef, Mut: false, Init: wasmb.ConstRefFunc(l.Gleaf)})
 	m.Exports = append(m.Exports, wasmb.Export{Name: "mem", Kind: wasmb.KindMemory, Idx: 0})
 	// element 0 (active): slot s = f_{s+1}; element 1 (passive): [last f]; element 2: odd at SlotOdd
 	var fs []uint32
@@ -381,6 +430,7 @@ func (p *Plan) Encode() []byte {
 	for i := 0; i < n; i++ {
 		all = append(all, l.F0+uint32(i))
 	}
+	all = append(all, l.Gleaf)
 	m.Elems = append(m.Elems, wasmb.Elem{Mode: 2, Funcs: all})
 	m.Datas = []wasmb.Data{{Passive: true, Bytes: []byte{0x0D, 0xF0, 0xED, 0x5E}}, {Offset: wasmb.ConstI32(0x120), Bytes: []byte("f")}}
 	m.DataCount = true
